@@ -69,7 +69,7 @@ def Sizes.headerWords (z : Sizes) (ver : Nat) : List Int :=
 
 def sizesOf (ver : Nat) (deflate : List UInt8 → List UInt8) (items : List Item)
     (datas : List (List UInt8)) : Sizes :=
-  { nTypes := (groupTypes items 0 []).length, nItems := items.length, nData := datas.length,
+  { nTypes := (groupTypes items 0).length, nItems := items.length, nData := datas.length,
     sizeItems := sumNat (items.map (fun it => 8 + 4 * it.data.length)),
     sizeData := sumNat ((if ver = 3 then datas else datas.map deflate).map List.length) }
 
@@ -87,17 +87,22 @@ theorem sumNat_items_mod4 (items : List Item) :
   | nil => rfl
   | cons it items ih => simp only [List.map_cons, sumNat]; omega
 
+/-- the header struct the writer's first 36 bytes decode to -/
+def writtenHeader (z : Sizes) (ver : Nat) : Header :=
+  { magic := magicData, version := (ver : Int), size := ((z.total ver - 16 : Nat) : Int),
+    swaplen := ((z.total ver - 16 - z.sizeData : Nat) : Int), numItemTypes := z.nTypes,
+    numItems := z.nItems, numData := z.nData, sizeItems := z.sizeItems, sizeData := z.sizeData }
+
 /-- **The writer's header is accepted.**  For versions 3 and 4 and any item/data set whose file
 stays below 2 GiB, `Header::read` on the written file succeeds with the counts and sizes of what
 was written, and `check_size_and_swaplen` accepts the `size`/`swaplen` fields as the *non-crude*
 variant with `expected_size` = the writer's total. -/
-theorem writer_header_accepted (ver : Nat) (hv : ver = 3 ∨ ver = 4)
+theorem writer_header_explicit (ver : Nat) (hv : ver = 3 ∨ ver = 4)
     (deflate : List UInt8 → List UInt8) (items : List Item) (datas : List (List UInt8))
     (hmax : (sizesOf ver deflate items datas).total ver ≤ 2147483647) :
-    ∃ h, Header.read (writeDf ver deflate items datas) = .ok h
-      ∧ h.version = ver ∧ h.numItems = items.length ∧ h.numData = datas.length
-      ∧ h.numItemTypes = (groupTypes items 0 []).length
-      ∧ h.checkSizeAndSwaplen
+    Header.read (writeDf ver deflate items datas)
+        = .ok (writtenHeader (sizesOf ver deflate items datas) ver)
+      ∧ (writtenHeader (sizesOf ver deflate items datas) ver).checkSizeAndSwaplen
           = .ok { expectedSize := ((sizesOf ver deflate items datas).total ver : Nat), crude := false } := by
   obtain ⟨tail, hfile⟩ := writeDf_eq_header_append ver deflate items datas
   generalize hz : sizesOf ver deflate items datas = z at *
@@ -127,13 +132,11 @@ theorem writer_header_accepted (ver : Nat) (hv : ver = 3 ∨ ver = 4)
   have htake : (writeDf ver deflate items datas).take headerSize
       = magicData ++ bytesOfWords (z.headerWords ver) := by
     rw [hfile]; exact List.take_left' hlen
-  have hnt : z.nTypes = (groupTypes items 0 []).length := by rw [← hz]; rfl
+  have hnt : z.nTypes = (groupTypes items 0).length := by rw [← hz]; rfl
   have hni : z.nItems = items.length := by rw [← hz]; rfl
   have hnd : z.nData = datas.length := by rw [← hz]; rfl
-  refine ⟨{ magic := magicData, version := (ver : Int), size := ((z.total ver - 16 : Nat) : Int),
-            swaplen := ((z.total ver - 16 - z.sizeData : Nat) : Int), numItemTypes := z.nTypes,
-            numItems := z.nItems, numData := z.nData, sizeItems := z.sizeItems, sizeData := z.sizeData },
-    ?_, rfl, by simp only [hni], by simp only [hnd], by simp only [hnt], ?_⟩
+  unfold writtenHeader
+  refine ⟨?_, ?_⟩
   · unfold Header.read
     simp only [htake, hlen, Nat.sub_self, List.replicate_zero, List.append_nil, hbuf]
     rw [if_neg (by simp [headerSize])]
@@ -183,5 +186,1092 @@ theorem writer_header_accepted (ver : Nat) (hv : ver = 3 ∨ ver = 4)
     congr 2
     simp only [decide_eq_false_iff_not, ne_eq, Decidable.not_not]
     omega
+
+
+
+/-- **The writer's header is accepted** (existential form). -/
+theorem writer_header_accepted (ver : Nat) (hv : ver = 3 ∨ ver = 4)
+    (deflate : List UInt8 → List UInt8) (items : List Item) (datas : List (List UInt8))
+    (hmax : (sizesOf ver deflate items datas).total ver ≤ 2147483647) :
+    ∃ h, Header.read (writeDf ver deflate items datas) = .ok h
+      ∧ h.version = ver ∧ h.numItems = items.length ∧ h.numData = datas.length
+      ∧ h.numItemTypes = (groupTypes items 0).length
+      ∧ h.checkSizeAndSwaplen
+          = .ok { expectedSize := ((sizesOf ver deflate items datas).total ver : Nat), crude := false } :=
+  ⟨_, (writer_header_explicit ver hv deflate items datas hmax).1, rfl, rfl, rfl, rfl,
+    (writer_header_explicit ver hv deflate items datas hmax).2⟩
+
+/-! ### running sums, offsets, windows of a concatenation -/
+
+theorem offsetsFrom_length : ∀ (ls : List Nat) (o : Nat), (offsetsFrom o ls).length = ls.length
+  | [], _ => rfl
+  | l :: ls, o => by simp [offsetsFrom, offsetsFrom_length ls]
+
+theorem offsetsFrom_getElem? : ∀ (ls : List Nat) (o i : Nat), i < ls.length →
+    (offsetsFrom o ls)[i]? = some (o + sumNat (ls.take i))
+  | [], _, _, h => by simp at h
+  | l :: ls, o, 0, _ => by simp [offsetsFrom, sumNat]
+  | l :: ls, o, i + 1, h => by
+    simp only [offsetsFrom, List.getElem?_cons_succ, List.take_succ_cons, sumNat]
+    rw [offsetsFrom_getElem? ls (o + l) i (by simpa using h)]
+    congr 1; omega
+
+theorem sumNat_take_succ : ∀ (ls : List Nat) (i : Nat) (h : i < ls.length),
+    sumNat (ls.take (i + 1)) = sumNat (ls.take i) + ls[i]
+  | [], _, h => by simp at h
+  | l :: ls, 0, _ => by simp [sumNat]
+  | l :: ls, i + 1, h => by
+    simp only [List.take_succ_cons, sumNat, List.getElem_cons_succ]
+    rw [sumNat_take_succ ls i (by simpa using h)]; omega
+
+theorem sumNat_take_le : ∀ (ls : List Nat) (i : Nat), sumNat (ls.take i) ≤ sumNat ls
+  | [], _ => by simp [sumNat]
+  | l :: ls, 0 => by simp [sumNat]
+  | l :: ls, i + 1 => by
+    simp only [List.take_succ_cons, sumNat]; have := sumNat_take_le ls i; omega
+
+theorem sumNat_take_all (ls : List Nat) : sumNat (ls.take ls.length) = sumNat ls := by
+  rw [List.take_length]
+
+theorem sumNat_take_mono (ls : List Nat) {i j : Nat} (h : i ≤ j) :
+    sumNat (ls.take i) ≤ sumNat (ls.take j) := by
+  have : ls.take i = (ls.take j).take i := by rw [List.take_take]; congr 1; omega
+  rw [this]; exact sumNat_take_le _ _
+
+theorem concatBytes_eq_flatten : ∀ L : List (List UInt8), concatBytes L = L.flatten
+  | [] => rfl
+  | l :: L => by simp [concatBytes, concatBytes_eq_flatten L]
+
+/-- the `k`-th piece of a concatenation starts at the sum of the lengths before it -/
+theorem flatten_drop_sum {α : Type} : ∀ (L : List (List α)) (k : Nat) (h : k < L.length),
+    L.flatten.drop (sumNat ((L.take k).map List.length)) = L[k] ++ (L.drop (k + 1)).flatten
+  | [], _, h => by simp at h
+  | l :: L, 0, _ => by simp [sumNat]
+  | l :: L, k + 1, h => by
+    simp only [List.take_succ_cons, List.map_cons, sumNat, List.flatten_cons, List.getElem_cons_succ,
+      List.drop_succ_cons]
+    rw [← List.drop_drop, List.drop_left' rfl]
+    exact flatten_drop_sum L k (by simpa using h)
+
+theorem sumNat_map_length_flatten {α : Type} : ∀ (L : List (List α)),
+    L.flatten.length = sumNat (L.map List.length)
+  | [] => rfl
+  | l :: L => by simp [sumNat, sumNat_map_length_flatten L]
+
+
+
+/-! ### the four blocks of `check` succeed on tables described by functions -/
+
+theorem checkItems_ok_of (r : Reader) (N : Nat) (off : Nat → Nat) (hd sz : Nat → Int)
+    (hsi : 0 ≤ r.sizeItems)
+    (hoff : ∀ k, k < N → r.itemOffsets[k]? = some (off k : Int))
+    (hhdr : ∀ k, k < N → r.itemHeader k = .ok (hd k, sz k))
+    (hsz : ∀ k, k < N → 0 ≤ sz k ∧ (sz k).toNat % 4 = 0)
+    (hnext : ∀ k, k < N → off (k + 1) = off k + 8 + (sz k).toNat)
+    (hle : ∀ k, k ≤ N → off k ≤ off N)
+    (hend : off N = r.sizeItems.toNat) :
+    ∀ n i, i + n = N → checkItems r n i (off i) = .ok () := by
+  intro n
+  induction n with
+  | zero =>
+    intro i hi
+    have : i = N := by omega
+    subst this
+    unfold checkItems
+    rw [asUsize_nonneg hsi, if_neg (by omega)]
+  | succ n ih =>
+    intro i hi
+    have hiN : i < N := by omega
+    unfold checkItems
+    rw [hoff i hiN]
+    simp only
+    have h0 : (0 : Int) ≤ (off i : Int) := by omega
+    rw [if_neg (by omega), asUsize_nonneg h0, asUsize_nonneg hsi]
+    have hl := hle (i + 1) (by omega)
+    have hn := hnext i hiN
+    obtain ⟨hs0, hs4⟩ := hsz i hiN
+    rw [if_neg (by omega), if_neg (by omega), hhdr i hiN]
+    simp only
+    rw [if_neg (by omega), asUsize_nonneg hs0, if_neg (by omega), if_neg (by omega)]
+    rw [← hn]
+    exact ih (i + 1) (by omega)
+
+theorem checkData_ok_of (r : Reader) (N : Nat) (soff : Nat → Nat)
+    (hoff : ∀ k, k < N → r.dataOffsets[k]? = some (soff k : Int))
+    (huds : ∀ k, k < N → udsCheck r k = none)
+    (hmono : ∀ k, k + 1 < N → soff k ≤ soff (k + 1))
+    (hbound : ∀ k, k < N → (soff k : Int) ≤ r.sizeData) :
+    ∀ n i (prev : Int), i + n = N → (i < N → prev ≤ soff i) → checkData r n i prev = .ok () := by
+  intro n
+  induction n with
+  | zero => intro i prev _ _; unfold checkData; rfl
+  | succ n ih =>
+    intro i prev hi hp
+    have hiN : i < N := by omega
+    unfold checkData
+    rw [huds i hiN]
+    simp only
+    rw [hoff i hiN]
+    simp only
+    have := hbound i hiN
+    have := hp hiN
+    rw [if_neg (by omega), if_neg (by omega)]
+    exact ih (i + 1) _ (by omega) (fun h => by have := hmono i h; omega)
+
+theorem checkTypeItems_ok_of (r : Reader) (typeId : Int) (hd sz : Nat → Int) :
+    ∀ n a, (∀ k, a ≤ k → k < a + n → r.itemHeader k = .ok (hd k, sz k)
+        ∧ headerTypeId (hd k) = typeId % 65536) →
+      checkTypeItems r typeId n a = .ok () := by
+  intro n
+  induction n with
+  | zero => intro a _; unfold checkTypeItems; rfl
+  | succ n ih =>
+    intro a h
+    obtain ⟨h1, h2⟩ := h a (by omega) (by omega)
+    unfold checkTypeItems
+    rw [h1]
+    simp only
+    unfold headerTypeId at h2
+    rw [if_neg (by omega)]
+    exact ih (a + 1) (fun k hk1 hk2 => h k (by omega) (by omega))
+
+theorem checkTypeIds_ok_of (r : Reader) (hd sz : Nat → Int) :
+    ∀ ts : List ItemType, (∀ t ∈ ts, 0 ≤ t.start ∧ 0 ≤ t.num ∧ t.start + t.num ≤ 2147483647
+        ∧ ∀ k, t.start.toNat ≤ k → k < t.start.toNat + t.num.toNat →
+            r.itemHeader k = .ok (hd k, sz k) ∧ headerTypeId (hd k) = t.typeId % 65536) →
+      checkTypeIds r ts = .ok () := by
+  intro ts
+  induction ts with
+  | nil => intro _; unfold checkTypeIds; rfl
+  | cons t ts ih =>
+    intro h
+    obtain ⟨h1, h2, h3, h4⟩ := h t (List.mem_cons_self ..)
+    unfold checkTypeIds
+    rw [addI32_some (by omega) (by omega)]
+    simp only
+    rw [asUsize_nonneg (by omega : 0 ≤ t.start + t.num), asUsize_nonneg h1]
+    have : (t.start + t.num).toNat - t.start.toNat = t.num.toNat := by omega
+    rw [this, checkTypeItems_ok_of r t.typeId hd sz _ _ h4]
+    exact ih (fun t' ht' => h t' (List.mem_cons_of_mem _ ht'))
+
+
+/-! ### the type table the writer builds -/
+
+theorem groupTypes_head (it : Item) (rest : List Item) (idx : Nat) :
+    ∃ g gs, groupTypes (it :: rest) idx = g :: gs ∧ g.typeId = it.typeId ∧ g.start = idx := by
+  simp only [groupTypes]
+  split
+  · split
+    · rename_i h; exact ⟨_, _, rfl, h, rfl⟩
+    · exact ⟨_, _, rfl, rfl, rfl⟩
+  · exact ⟨_, _, rfl, rfl, rfl⟩
+
+/-- one step of the first block of `check` -/
+theorem checkTypes_cons_ok_iff (N : Int) (t : ItemType) (ts : List ItemType) (e : Int)
+    (prev : Option Int) (seen : List Int) (he0 : 0 ≤ e) (heN : e ≤ N) (hN : N ≤ 2147483647) :
+    checkTypes N (t :: ts) e prev seen = .ok () ↔
+      (0 ≤ t.typeId ∧ t.typeId < 65536) ∧ notAbovePrev prev t.typeId = false ∧ t.start = e
+        ∧ 0 ≤ t.num ∧ t.num ≤ N - e ∧ seen.contains t.typeId = false
+        ∧ checkTypes N ts (e + t.num) (some t.typeId) (seen ++ [t.typeId]) = .ok () := by
+  constructor
+  · intro h
+    unfold checkTypes at h
+    split at h; · cases h
+    rename_i h1
+    split at h; · cases h
+    rename_i h2
+    split at h; · cases h
+    rename_i h3
+    split at h; · cases h
+    rename_i h4
+    have h3 : t.start = e := by simpa using h3
+    rw [h3, subI32_some (by omega) (by omega)] at h
+    simp only at h
+    split at h; · cases h
+    rename_i h5
+    rw [addI32_some (by omega) (by omega)] at h
+    simp only at h
+    split at h; · cases h
+    rename_i h6
+    exact ⟨by simpa using h1, by simpa using h2, h3, by omega, by omega, by simpa using h6, h⟩
+  · rintro ⟨h1, h2, h3, h4, h5, h6, h7⟩
+    unfold checkTypes
+    rw [if_neg (by simp; omega), h2]
+    simp only [Bool.false_eq_true, if_false]
+    rw [if_neg (by simp [h3]), if_neg (by omega), h3, subI32_some (by omega) (by omega)]
+    simp only
+    rw [if_neg (by omega), addI32_some (by omega) (by omega)]
+    simp only
+    rw [h6]
+    simpa using h7
+
+
+theorem contains_false_of_lt {seen : List Int} {v : Int} (h : ∀ s ∈ seen, s < v) :
+    seen.contains v = false := by
+  apply Bool.eq_false_iff.2
+  intro hc
+  have := List.contains_iff_mem.1 hc
+  have := h v this
+  omega
+
+theorem notAbovePrev_false {prev : Option Int} {v : Int} (h : ∀ p, prev = some p → p < v) :
+    notAbovePrev prev v = false := by
+  unfold notAbovePrev
+  split
+  · rename_i p; have := h p rfl; simp; omega
+  · rfl
+
+/-- the first block of `check` accepts the writer's type table -/
+theorem checkTypes_groupTypes (N : Nat) (hN : N ≤ 2147483647) :
+    ∀ (items : List Item) (idx : Nat) (prev : Option Int) (seen : List Int),
+      items.Pairwise (fun a b => a.typeId ≤ b.typeId) → (∀ it ∈ items, it.typeId < 65536) →
+      N = idx + items.length →
+      (∀ p, prev = some p → ∀ it ∈ items, p < (it.typeId : Int)) →
+      (∀ s ∈ seen, ∀ it ∈ items, s < (it.typeId : Int)) →
+      checkTypes (N : Int) (groupTypes items idx) (idx : Int) prev seen = .ok () := by
+  intro items
+  induction items with
+  | nil =>
+    intro idx prev seen _ _ hlen _ _
+    simp only [groupTypes, checkTypes]
+    rw [if_neg (by simp at hlen; omega)]
+  | cons it rest ih =>
+    intro idx prev seen hsort h16 hlen hprev hseen
+    have hlen' : N = (idx + 1) + rest.length := by simp at hlen; omega
+    have hsort' := (List.pairwise_cons.1 hsort).2
+    have hhead := (List.pairwise_cons.1 hsort).1
+    have h16' : ∀ it' ∈ rest, it'.typeId < 65536 := fun it' h => h16 it' (List.mem_cons_of_mem _ h)
+    have htid := h16 it (List.mem_cons_self ..)
+    have hnp : notAbovePrev prev (it.typeId : Int) = false :=
+      notAbovePrev_false (fun p hp => hprev p hp it (List.mem_cons_self ..))
+    have hsc : seen.contains (it.typeId : Int) = false :=
+      contains_false_of_lt (fun s hs => hseen s hs it (List.mem_cons_self ..))
+    simp only [groupTypes]
+    cases hG : groupTypes rest (idx + 1) with
+    | nil =>
+      have hrest : rest = [] := by
+        cases rest with
+        | nil => rfl
+        | cons r0 rest' =>
+          obtain ⟨g, gs, hg, _⟩ := groupTypes_head r0 rest' (idx + 1)
+          rw [hg] at hG; cases hG
+      subst hrest
+      simp only
+      rw [checkTypes_cons_ok_iff _ _ _ _ _ _ (by omega) (by omega) (by omega)]
+      refine ⟨⟨by simp, by simp; omega⟩, hnp, rfl, by simp, by simp at hlen ⊢; omega, hsc, ?_⟩
+      simp only [checkTypes]
+      rw [if_neg (by simp at hlen ⊢; omega)]
+    | cons g gs =>
+      obtain ⟨r0, rest', hr⟩ : ∃ r0 rest', rest = r0 :: rest' := by
+        cases rest with
+        | nil => simp [groupTypes] at hG
+        | cons r0 rest' => exact ⟨r0, rest', rfl⟩
+      obtain ⟨g', gs', hg', hgt, hgs⟩ := groupTypes_head r0 rest' (idx + 1)
+      rw [← hr, hG] at hg'
+      cases hg'
+      simp only
+      by_cases hsame : g.typeId = (it.typeId : Int)
+      · rw [if_pos hsame]
+        have := ih (idx + 1) prev seen hsort' h16' hlen'
+          (fun p hp it' h' => hprev p hp it' (List.mem_cons_of_mem _ h'))
+          (fun s hs it' h' => hseen s hs it' (List.mem_cons_of_mem _ h'))
+        rw [hG] at this
+        have hcast : ((idx + 1 : Nat) : Int) = (idx : Int) + 1 := by omega
+        rw [hcast, checkTypes_cons_ok_iff _ _ _ _ _ _ (by omega) (by omega) (by omega)] at this
+        obtain ⟨a1, a2, a3, a4, a5, a6, a7⟩ := this
+        rw [checkTypes_cons_ok_iff _ _ _ _ _ _ (by omega) (by omega) (by omega)]
+        refine ⟨a1, a2, rfl, by simp only; omega, by simp only; omega, a6, ?_⟩
+        simp only
+        have : (idx : Int) + (g.num + 1) = (idx : Int) + 1 + g.num := by omega
+        rw [this]; exact a7
+      · rw [if_neg hsame]
+        have hlt0 : it.typeId < r0.typeId := by
+          have h1 := hhead r0 (by rw [hr]; exact List.mem_cons_self ..)
+          have : (r0.typeId : Int) ≠ (it.typeId : Int) := by rw [← hgt]; exact hsame
+          omega
+        have hlt : ∀ it' ∈ rest, (it.typeId : Int) < (it'.typeId : Int) := by
+          intro it' h'
+          rw [hr] at h' hsort'
+          cases h' with
+          | head => omega
+          | tail _ hm => have := (List.pairwise_cons.1 hsort').1 it' hm; omega
+        have := ih (idx + 1) (some (it.typeId : Int)) (seen ++ [(it.typeId : Int)]) hsort' h16' hlen'
+          (fun p hp it' h' => by cases hp; exact hlt it' h')
+          (fun s hs it' h' => by
+            rcases List.mem_append.1 hs with h1 | h1
+            · exact hseen s h1 it' (List.mem_cons_of_mem _ h')
+            · simp at h1; subst h1; exact hlt it' h')
+        rw [hG] at this
+        rw [checkTypes_cons_ok_iff _ _ _ _ _ _ (by omega) (by omega) (by omega)]
+        refine ⟨⟨by simp, by simp; omega⟩, hnp, rfl, by simp, by simp only; omega, hsc, ?_⟩
+        simp only
+        have hcast : ((idx + 1 : Nat) : Int) = (idx : Int) + 1 := by omega
+        rw [← hcast]; exact this
+
+
+/-- every entry of the writer's type table covers a run of items of its type -/
+def Covers (items : List Item) (idx : Nat) (t : ItemType) : Prop :=
+  ∃ a n : Nat, t.start = ((idx + a : Nat) : Int) ∧ t.num = (n : Int) ∧ a + n ≤ items.length
+    ∧ ∀ j, j < n → ∃ it, items[a + j]? = some it ∧ (it.typeId : Int) = t.typeId
+
+theorem covers_shift {it : Item} {rest : List Item} {idx : Nat} {t : ItemType}
+    (h : Covers rest (idx + 1) t) : Covers (it :: rest) idx t := by
+  obtain ⟨a, n, h1, h2, h3, h4⟩ := h
+  refine ⟨a + 1, n, by rw [h1]; congr 1; omega, h2, by simp; omega, ?_⟩
+  intro j hj
+  obtain ⟨it', hi, ht⟩ := h4 j hj
+  refine ⟨it', ?_, ht⟩
+  have : a + 1 + j = (a + j) + 1 := by omega
+  rw [this, List.getElem?_cons_succ]; exact hi
+
+theorem groupTypes_covers : ∀ (items : List Item) (idx : Nat), ∀ t ∈ groupTypes items idx, Covers items idx t := by
+  intro items
+  induction items with
+  | nil => intro idx t ht; simp [groupTypes] at ht
+  | cons it rest ih =>
+    intro idx t ht
+    simp only [groupTypes] at ht
+    have single : Covers (it :: rest) idx { typeId := it.typeId, start := idx, num := 1 } :=
+      ⟨0, 1, rfl, rfl, by simp, fun j hj => by
+        have : j = 0 := by omega
+        subst this
+        exact ⟨it, rfl, rfl⟩⟩
+    cases hG : groupTypes rest (idx + 1) with
+    | nil =>
+      rw [hG] at ht
+      simp only [List.mem_singleton] at ht
+      subst ht; exact single
+    | cons g gs =>
+      rw [hG] at ht
+      simp only at ht
+      have hgmem : ∀ t' ∈ g :: gs, Covers rest (idx + 1) t' := fun t' h' => ih (idx + 1) t' (by rw [hG]; exact h')
+      split at ht
+      · rename_i hsame
+        cases ht with
+        | head =>
+          obtain ⟨a, n, h1, h2, h3, h4⟩ := hgmem g (List.mem_cons_self ..)
+          obtain ⟨r0, rest', hr⟩ : ∃ r0 rest', rest = r0 :: rest' := by
+            cases rest with
+            | nil => simp [groupTypes] at hG
+            | cons r0 rest' => exact ⟨r0, rest', rfl⟩
+          obtain ⟨g', gs', hg', _, hgs⟩ := groupTypes_head r0 rest' (idx + 1)
+          rw [← hr, hG] at hg'
+          cases hg'
+          have ha : a = 0 := by rw [hgs] at h1; omega
+          subst ha
+          refine ⟨0, n + 1, rfl, by simp only; omega, by simp; omega, ?_⟩
+          intro j hj
+          cases j with
+          | zero => exact ⟨it, rfl, hsame.symm⟩
+          | succ j =>
+            obtain ⟨it', hi, hty⟩ := h4 j (by omega)
+            refine ⟨it', ?_, hty⟩
+            simp only [Nat.zero_add] at hi ⊢
+            rw [List.getElem?_cons_succ]; exact hi
+        | tail _ hm => exact covers_shift (hgmem t (List.mem_cons_of_mem _ hm))
+      · cases ht with
+        | head => exact single
+        | tail _ hm => exact covers_shift (hgmem t hm)
+
+
+
+/-! ### words that do not fit an `i32` wrap around; the item area as words -/
+
+/-- what reading back a written word yields: the value modulo 2^32 as an `i32` -/
+def wrapI32 (v : Int) : Int :=
+  if v % 4294967296 < 2147483648 then v % 4294967296 else v % 4294967296 - 4294967296
+
+theorem wrapI32_of_in {v : Int} (h : InI32 v) : wrapI32 v = v := by
+  unfold InI32 at h; unfold wrapI32; split <;> omega
+
+theorem i32OfBytes_bytesOfI32_wrap (v : Int) :
+    ∃ a b c d, bytesOfI32 v = [a, b, c, d] ∧ i32OfBytes a b c d = wrapI32 v := by
+  refine ⟨_, _, _, _, rfl, ?_⟩
+  unfold i32OfBytes wrapI32
+  simp only [u8_toNat_ofNat_mod]
+  have hn : ((v % 4294967296).toNat : Int) = v % 4294967296 := by omega
+  split <;> split <;> omega
+
+theorem wordsOfBytes_bytesOfWords_wrap_append :
+    ∀ (ws : List Int) (rest : List UInt8),
+      wordsOfBytes (bytesOfWords ws ++ rest) = ws.map wrapI32 ++ wordsOfBytes rest
+  | [], rest => by simp [bytesOfWords]
+  | w :: ws, rest => by
+    obtain ⟨a, b, c, d, hb, hv⟩ := i32OfBytes_bytesOfI32_wrap w
+    simp only [bytesOfWords, hb, List.cons_append, List.nil_append, wordsOfBytes, hv, List.map_cons]
+    rw [wordsOfBytes_bytesOfWords_wrap_append ws rest]
+
+theorem wordsOfBytes_bytesOfWords_wrap (ws : List Int) :
+    wordsOfBytes (bytesOfWords ws) = ws.map wrapI32 := by
+  have := wordsOfBytes_bytesOfWords_wrap_append ws []
+  simpa [wordsOfBytes] using this
+
+theorem bytesOfWords_append : ∀ (a b : List Int), bytesOfWords (a ++ b) = bytesOfWords a ++ bytesOfWords b
+  | [], b => rfl
+  | x :: a, b => by simp [bytesOfWords, bytesOfWords_append a b]
+
+/-- the words of one item as written -/
+def itemWords (it : Item) : List Int :=
+  ((it.typeId * 65536 + it.id : Nat) : Int) :: ((4 * it.data.length : Nat) : Int) :: it.data
+
+theorem itemBytes_eq (it : Item) : itemBytes it = bytesOfWords (itemWords it) := by
+  simp [itemBytes, itemWords, bytesOfWords, List.append_assoc]
+
+theorem concatBytes_items (items : List Item) :
+    concatBytes (items.map itemBytes) = bytesOfWords (items.flatMap itemWords) := by
+  induction items with
+  | nil => rfl
+  | cons it items ih =>
+    simp only [List.map_cons, concatBytes, List.flatMap_cons, bytesOfWords_append, ih, itemBytes_eq]
+
+/-- the words of one item as read back -/
+def itemWordsR (it : Item) : List Int :=
+  wrapI32 ((it.typeId * 65536 + it.id : Nat) : Int) :: ((4 * it.data.length : Nat) : Int) :: it.data
+
+theorem map_wrapI32_of_in : ∀ (ws : List Int), (∀ w ∈ ws, InI32 w) → ws.map wrapI32 = ws
+  | [], _ => rfl
+  | w :: ws, h => by
+    simp only [List.map_cons]
+    rw [wrapI32_of_in (h w (List.mem_cons_self ..)),
+      map_wrapI32_of_in ws (fun w' h' => h w' (List.mem_cons_of_mem _ h'))]
+
+theorem itemWords_wrap {it : Item} (hd : ∀ w ∈ it.data, InI32 w) (hl : 4 * it.data.length ≤ 2147483647) :
+    (itemWords it).map wrapI32 = itemWordsR it := by
+  simp only [itemWords, itemWordsR, List.map_cons]
+  rw [wrapI32_of_in (v := ((4 * it.data.length : Nat) : Int)) (by unfold InI32; omega),
+    map_wrapI32_of_in _ hd]
+
+
+
+
+/-! ### reading items and data out of a laid-out reader -/
+
+/-- `item_header(k)` / `item(k)` when the item area holds `hdr, size, data` at word `o` -/
+theorem item_of_layout {r : Reader} {k o : Nat} {hdr : Int} {data rest : List Int}
+    (ho : r.itemOffsets[k]? = some ((4 * o : Nat) : Int))
+    (hd : r.itemsRaw.drop o = hdr :: ((4 * data.length : Nat) : Int) :: (data ++ rest)) :
+    r.itemHeader k = .ok (hdr, ((4 * data.length : Nat) : Int))
+      ∧ r.item k = .ok { typeId := (hdr % 4294967296).toNat / 65536,
+                         id := (hdr % 4294967296).toNat % 65536,
+                         off := o + 2, len := data.length, data := data } := by
+  have hlen : o + 2 + data.length ≤ r.itemsRaw.length := by
+    have := congrArg List.length hd
+    simp only [List.length_drop, List.length_cons, List.length_append] at this
+    omega
+  have hw : ((4 * o : Nat) : Int).toNat / 4 = o := by omega
+  have hw4 : ((4 * o : Nat) : Int).toNat % 4 = 0 := by omega
+  have hs : ((4 * data.length : Nat) : Int).toNat / 4 = data.length := by omega
+  have hs4 : ((4 * data.length : Nat) : Int).toNat % 4 = 0 := by omega
+  have hhdr : r.itemHeader k = .ok (hdr, ((4 * data.length : Nat) : Int)) := by
+    unfold Reader.itemHeader
+    rw [ho]
+    simp only
+    rw [if_neg (by omega), if_neg (by omega), hw, if_neg (by omega), hd]
+  refine ⟨hhdr, ?_⟩
+  unfold Reader.item
+  rw [hhdr]
+  simp only
+  rw [ho]
+  simp only
+  rw [if_neg (by omega), if_neg (by omega), hw, if_neg (by omega), if_neg (by omega),
+    if_neg (by omega), if_neg (by omega), hs, if_neg (by omega)]
+  have hdd : r.itemsRaw.drop (o + 2) = data ++ rest := by
+    have := congrArg (List.drop 2) hd
+    simpa [List.drop_drop, Nat.add_comm] using this
+  rw [hdd]
+  congr 2
+  exact List.take_left' rfl
+
+/-- `read_data(i)` when the offsets are the running sums of the stored blocks and the data
+section is their concatenation -/
+theorem readData_of_layout {r : Reader} (stored : List (List UInt8))
+    (inflate : Nat → List UInt8 → Option (List UInt8))
+    (hoffs : r.dataOffsets = (offsetsFrom 0 (stored.map List.length)).map (fun (n : Nat) => (n : Int)))
+    (hreg : r.dataRegion = stored.flatten)
+    (hsd : r.sizeData = ((sumNat (stored.map List.length) : Nat) : Int))
+    (hmax : r.sizeData ≤ 2147483647)
+    {i : Nat} (hi : i < stored.length) :
+    r.readData inflate i =
+      match r.uncompSizes with
+      | some uds =>
+        match uds[i]? with
+        | none => .panic "read_data: uncomp_data_sizes[index]"
+        | some u =>
+          match inflate (asUsize u) stored[i] with
+          | none => .err .compressionError
+          | some out =>
+            if out.length > asUsize u then .panic "zlib wrote past the destination buffer"
+            else if out.length = asUsize u then .ok out
+            else .err .compressionWrongSize
+      | none => .ok stored[i] := by
+  have hlen : r.dataOffsets.length = stored.length := by
+    rw [hoffs]; simp [offsetsFrom_length]
+  have hget : ∀ j, j < stored.length →
+      r.dataOffsets[j]? = some ((sumNat ((stored.map List.length).take j) : Nat) : Int) := by
+    intro j hj
+    rw [hoffs, List.getElem?_map, offsetsFrom_getElem? _ _ _ (by simpa using hj)]
+    simp
+  have hsucc := sumNat_take_succ (stored.map List.length) i (by simpa using hi)
+  simp only [List.getElem_map] at hsucc
+  have hle := sumNat_take_le (stored.map List.length) (i + 1)
+  have hsize : r.dataSizeFile i = .ok stored[i].length := by
+    unfold Reader.dataSizeFile
+    rw [hget i hi]
+    simp only
+    rw [if_neg (by omega)]
+    by_cases hlast : i < r.dataOffsets.length - 1
+    · rw [if_pos hlast, hget (i + 1) (by omega)]
+      simp only
+      rw [asUsize_nonneg (by omega), asUsize_nonneg (by omega), if_pos (by omega)]
+      congr 1; omega
+    · rw [if_neg hlast]
+      simp only
+      have hall : sumNat ((stored.map List.length).take (i + 1)) = sumNat (stored.map List.length) := by
+        have : i + 1 = (stored.map List.length).length := by simp; omega
+        rw [this, List.take_length]
+      rw [hsd, asUsize_nonneg (by omega), asUsize_nonneg (by omega), if_pos (by omega)]
+      congr 1; omega
+  have hraw : (r.dataRegion.drop (sumNat ((stored.map List.length).take i))).take stored[i].length
+      = stored[i] := by
+    rw [hreg, ← List.map_take, flatten_drop_sum stored i hi]
+    exact List.take_left' rfl
+  unfold Reader.readData
+  rw [hsize]
+  simp only
+  rw [hget i hi]
+  simp only
+  have hmod : (((sumNat ((stored.map List.length).take i) : Nat) : Int) % 4294967296).toNat
+      = sumNat ((stored.map List.length).take i) := by
+    rw [hsd] at hmax; omega
+  rw [hmod, hraw]
+  simp only [ne_eq, not_true_eq_false, if_false]
+  rfl
+
+
+/-! ### the reader the written file parses to -/
+
+def storedOf (ver : Nat) (deflate : List UInt8 → List UInt8) (datas : List (List UInt8)) :
+    List (List UInt8) := if ver = 3 then datas else datas.map deflate
+
+def itemByteSize (it : Item) : Nat := 8 + 4 * it.data.length
+
+/-- the tables `Reader::new` obtains from `writeDf ver deflate items datas` -/
+def writtenReader (ver : Nat) (deflate : List UInt8 → List UInt8) (items : List Item)
+    (datas : List (List UInt8)) : Reader :=
+  { version := if ver = 3 then .v3 else .v4
+    numItemTypes := ((groupTypes items 0).length : Nat)
+    numItems := (items.length : Nat)
+    numData := (datas.length : Nat)
+    sizeItems := (sumNat (items.map itemByteSize) : Nat)
+    sizeData := (sumNat ((storedOf ver deflate datas).map List.length) : Nat)
+    itemTypes := groupTypes items 0
+    itemOffsets := (offsetsFrom 0 (items.map itemByteSize)).map (fun (n : Nat) => (n : Int))
+    dataOffsets := (offsetsFrom 0 ((storedOf ver deflate datas).map List.length)).map (fun (n : Nat) => (n : Int))
+    uncompSizes := if ver = 3 then none else some (datas.map (fun d => ((d.length : Nat) : Int)))
+    itemsRaw := (items.map itemWordsR).flatten
+    dataRegion := (storedOf ver deflate datas).flatten }
+
+theorem sumNat_take_map_mul4 {α : Type} (f g : α → Nat) (h : ∀ x, f x = 4 * g x) :
+    ∀ (l : List α) (k : Nat), sumNat ((l.map f).take k) = 4 * sumNat ((l.map g).take k)
+  | [], k => by simp [sumNat]
+  | x :: l, 0 => by simp [sumNat]
+  | x :: l, k + 1 => by
+    simp only [List.map_cons, List.take_succ_cons, sumNat, h x, sumNat_take_map_mul4 f g h l k]; omega
+
+/-- the header word of an item as read back -/
+def itemHdrR (it : Item) : Int := wrapI32 ((it.typeId * 65536 + it.id : Nat) : Int)
+
+theorem itemHdrR_toNat {it : Item} (h1 : it.typeId < 65536) (h2 : it.id < 65536) :
+    (itemHdrR it % 4294967296).toNat = it.typeId * 65536 + it.id := by
+  unfold itemHdrR wrapI32
+  split <;> omega
+
+/-- item `k` of the written reader -/
+theorem writtenReader_item (ver : Nat) (deflate : List UInt8 → List UInt8) (items : List Item)
+    (datas : List (List UInt8)) {k : Nat} (hk : k < items.length) :
+    let r := writtenReader ver deflate items datas
+    r.itemOffsets[k]? = some ((sumNat ((items.map itemByteSize).take k) : Nat) : Int)
+      ∧ r.itemHeader k = .ok (itemHdrR items[k], ((4 * items[k].data.length : Nat) : Int))
+      ∧ r.item k = .ok { typeId := (itemHdrR items[k] % 4294967296).toNat / 65536,
+                         id := (itemHdrR items[k] % 4294967296).toNat % 65536,
+                         off := sumNat (((items.map itemWordsR).take k).map List.length) + 2,
+                         len := items[k].data.length, data := items[k].data } := by
+  intro r
+  have hoff : r.itemOffsets[k]? = some ((sumNat ((items.map itemByteSize).take k) : Nat) : Int) := by
+    show ((offsetsFrom 0 (items.map itemByteSize)).map (fun (n : Nat) => (n : Int)))[k]? = _
+    rw [List.getElem?_map, offsetsFrom_getElem? _ _ _ (by simpa using hk)]
+    simp
+  have hmul : sumNat ((items.map itemByteSize).take k)
+      = 4 * sumNat (((items.map itemWordsR).take k).map List.length) := by
+    have e1 : ((items.map itemWordsR).take k).map List.length
+        = (items.map (List.length ∘ itemWordsR)).take k := by
+      rw [← List.map_take, List.map_map, List.map_take]
+    rw [e1]
+    exact sumNat_take_map_mul4 itemByteSize (List.length ∘ itemWordsR)
+      (fun it => by simp [itemByteSize, itemWordsR]; omega) items k
+  have hdrop : r.itemsRaw.drop (sumNat (((items.map itemWordsR).take k).map List.length))
+      = itemHdrR items[k] :: ((4 * items[k].data.length : Nat) : Int)
+          :: (items[k].data ++ ((items.map itemWordsR).drop (k + 1)).flatten) := by
+    show ((items.map itemWordsR).flatten).drop _ = _
+    rw [flatten_drop_sum _ k (by simpa using hk)]
+    simp [itemWordsR, itemHdrR]
+  rw [hmul] at hoff
+  obtain ⟨h1, h2⟩ := item_of_layout hoff hdrop
+  rw [← hmul] at hoff
+  exact ⟨hoff, h1, h2⟩
+
+
+theorem headerTypeId_itemHdrR {it : Item} (h1 : it.typeId < 65536) (h2 : it.id < 65536) :
+    headerTypeId (itemHdrR it) = (it.typeId : Int) := by
+  have := itemHdrR_toNat h1 h2
+  unfold headerTypeId
+  have h0 : 0 ≤ itemHdrR it % 4294967296 := by omega
+  omega
+
+/-- `check` accepts the tables of the written reader -/
+theorem writtenReader_check (ver : Nat) (deflate : List UInt8 → List UInt8) (items : List Item)
+    (datas : List (List UInt8))
+    (h16 : ∀ it ∈ items, it.typeId < 65536 ∧ it.id < 65536)
+    (hsort : items.Pairwise (fun a b => a.typeId ≤ b.typeId))
+    (hN : items.length ≤ 2147483647) :
+    (writtenReader ver deflate items datas).check = .ok () := by
+  let hd : Nat → Int := fun k => itemHdrR (items.getD k default)
+  let sz : Nat → Int := fun k => ((4 * (items.getD k default).data.length : Nat) : Int)
+  have hget : ∀ k (hk : k < items.length), items.getD k default = items[k] := by
+    intro k hk; simp [List.getD, List.getElem?_eq_getElem hk]
+  have hitem : ∀ k, k < items.length →
+      (writtenReader ver deflate items datas).itemHeader k = .ok (hd k, sz k) := by
+    intro k hk
+    have := (writtenReader_item ver deflate items datas hk).2.1
+    simp only [hd, sz, hget k hk]; exact this
+  unfold Reader.check
+  -- first block
+  have b1 : checkTypes (writtenReader ver deflate items datas).numItems
+      (writtenReader ver deflate items datas).itemTypes 0 none [] = .ok () := by
+    have := checkTypes_groupTypes items.length hN items 0 none [] hsort (fun it h => (h16 it h).1)
+      (by simp) (fun p hp => by cases hp) (fun s hs => by cases hs)
+    simpa [writtenReader] using this
+  rw [b1]
+  simp only
+  -- second block
+  have b2 : checkItems (writtenReader ver deflate items datas)
+      (asUsize (writtenReader ver deflate items datas).numItems) 0 0 = .ok () := by
+    have hnum : asUsize (writtenReader ver deflate items datas).numItems = items.length := by
+      show asUsize ((items.length : Nat) : Int) = items.length
+      rw [asUsize_nonneg (by omega)]; omega
+    rw [hnum]
+    have := checkItems_ok_of (writtenReader ver deflate items datas) items.length
+      (fun k => sumNat ((items.map itemByteSize).take k)) hd sz
+      (by simp [writtenReader])
+      (fun k hk => (writtenReader_item ver deflate items datas hk).1)
+      hitem
+      (fun k hk => by simp only [sz]; omega)
+      (fun k hk => by
+        have := sumNat_take_succ (items.map itemByteSize) k (by simpa using hk)
+        simp only [List.getElem_map, itemByteSize] at this
+        simp only [sz, hget k hk]
+        rw [this]; omega)
+      (fun k hk => sumNat_take_mono _ hk)
+      (by
+        have : items.length = (items.map itemByteSize).length := by simp
+        rw [this, List.take_length]; simp [writtenReader])
+      items.length 0 (by omega)
+    simpa [sumNat] using this
+  rw [b2]
+  simp only
+  -- third block
+  have hslen : (storedOf ver deflate datas).length = datas.length := by
+    unfold storedOf; split <;> simp
+  have b3 : checkData (writtenReader ver deflate items datas)
+      (asUsize (writtenReader ver deflate items datas).numData) 0 0 = .ok () := by
+    have hnum : asUsize (writtenReader ver deflate items datas).numData = datas.length := by
+      show asUsize ((datas.length : Nat) : Int) = datas.length
+      rw [asUsize_nonneg (by omega)]; omega
+    rw [hnum]
+    exact checkData_ok_of (writtenReader ver deflate items datas) datas.length
+      (fun k => sumNat (((storedOf ver deflate datas).map List.length).take k))
+      (fun k hk => by
+        show ((offsetsFrom 0 ((storedOf ver deflate datas).map List.length)).map
+          (fun (n : Nat) => (n : Int)))[k]? = _
+        rw [List.getElem?_map, offsetsFrom_getElem? _ _ _ (by simpa [hslen] using hk)]
+        simp)
+      (fun k hk => by
+        unfold udsCheck
+        show (match (if ver = 3 then none else some (datas.map (fun d => ((d.length : Nat) : Int)))) with
+          | some uds => _ | none => _) = none
+        split
+        · rename_i uds hu
+          split at hu
+          · cases hu
+          · cases hu
+            rw [List.getElem?_map, List.getElem?_eq_getElem hk]
+            simp only [Option.map_some]
+            rw [if_neg (by omega)]
+        · rfl)
+      (fun k _ => sumNat_take_mono _ (by omega))
+      (fun k _ => by
+        show ((sumNat (((storedOf ver deflate datas).map List.length).take k) : Nat) : Int)
+          ≤ ((sumNat ((storedOf ver deflate datas).map List.length) : Nat) : Int)
+        have := sumNat_take_le ((storedOf ver deflate datas).map List.length) k
+        omega)
+      datas.length 0 0 (by omega) (fun _ => by simp [sumNat])
+  rw [b3]
+  simp only
+  -- fourth block
+  refine checkTypeIds_ok_of (writtenReader ver deflate items datas) hd sz _ ?_
+  intro t ht
+  obtain ⟨a, n, h1, h2, h3, h4⟩ := groupTypes_covers items 0 t ht
+  refine ⟨by omega, by omega, by omega, ?_⟩
+  intro k hk1 hk2
+  have hkN : k < items.length := by omega
+  refine ⟨hitem k hkN, ?_⟩
+  obtain ⟨it, hit, hty⟩ := h4 (k - a) (by omega)
+  have hka : a + (k - a) = k := by omega
+  rw [hka, List.getElem?_eq_getElem hkN] at hit
+  cases hit
+  simp only [hd, hget k hkN]
+  have hb := h16 items[k] (List.getElem_mem hkN)
+  rw [headerTypeId_itemHdrR hb.1 hb.2, ← hty]
+  omega
+
+
+
+
+/-! ### `Reader::new` on the written file -/
+
+def typeWords (types : List ItemType) : List Int := types.flatMap (fun t => [t.typeId, t.start, t.num])
+
+theorem writeDf_layout (ver : Nat) (deflate : List UInt8 → List UInt8) (items : List Item)
+    (datas : List (List UInt8)) :
+    writeDf ver deflate items datas =
+      (magicData ++ bytesOfWords ((sizesOf ver deflate items datas).headerWords ver)) ++
+      (bytesOfWords (typeWords (groupTypes items 0)) ++
+      (bytesOfWords ((offsetsFrom 0 (items.map itemByteSize)).map (fun (n : Nat) => (n : Int))) ++
+      (bytesOfWords ((offsetsFrom 0 ((storedOf ver deflate datas).map List.length)).map
+          (fun (n : Nat) => (n : Int))) ++
+      ((if ver = 3 then [] else bytesOfWords (datas.map (fun d => ((d.length : Nat) : Int)))) ++
+      (bytesOfWords (items.flatMap itemWords) ++ (storedOf ver deflate datas).flatten))))) := by
+  unfold writeDf
+  simp only [List.append_assoc]
+  rw [concatBytes_items, concatBytes_eq_flatten]
+  rfl
+
+theorem typesOfWords_typeWords : ∀ (ts : List ItemType), typesOfWords (typeWords ts) = ts
+  | [] => rfl
+  | t :: ts => by
+    simp only [typeWords, List.flatMap_cons, List.cons_append, List.nil_append, typesOfWords]
+    congr 1
+    exact typesOfWords_typeWords ts
+
+theorem typeWords_length (ts : List ItemType) : (typeWords ts).length = 3 * ts.length := by
+  induction ts with
+  | nil => rfl
+  | cons t ts ih => simp only [typeWords, List.flatMap_cons, List.length_append, List.length_cons,
+      List.length_nil] at ih ⊢; omega
+
+theorem readExact_of_length {n : Nat} {a rest : List UInt8} (h : a.length = n) :
+    readExact n (a ++ rest) = some (a, rest) := by
+  subst h; exact readExact_append a rest
+
+
+theorem offsetsFrom_le : ∀ (ls : List Nat) (o x : Nat), x ∈ offsetsFrom o ls → x ≤ o + sumNat ls
+  | [], _, _, h => by simp [offsetsFrom] at h
+  | l :: ls, o, x, h => by
+    simp only [offsetsFrom, List.mem_cons] at h
+    simp only [sumNat]
+    rcases h with rfl | h
+    · omega
+    · have := offsetsFrom_le ls (o + l) x h; omega
+
+theorem flatMap_itemWords_length (items : List Item) :
+    4 * (items.flatMap itemWords).length = sumNat (items.map itemByteSize) := by
+  induction items with
+  | nil => rfl
+  | cons it items ih =>
+    simp only [List.flatMap_cons, List.length_append, List.map_cons, sumNat, itemByteSize, itemWords,
+      List.length_cons] at ih ⊢
+    omega
+
+theorem itemByteSize_le_sum {items : List Item} {it : Item} (h : it ∈ items) :
+    itemByteSize it ≤ sumNat (items.map itemByteSize) := by
+  induction items with
+  | nil => cases h
+  | cons x items ih =>
+    simp only [List.map_cons, sumNat]
+    cases h with
+    | head => omega
+    | tail _ hm => have := ih hm; omega
+
+theorem flatMap_itemWords_wrap (items : List Item)
+    (hw : ∀ it ∈ items, ∀ w ∈ it.data, InI32 w)
+    (hs : sumNat (items.map itemByteSize) ≤ 2147483647) :
+    (items.flatMap itemWords).map wrapI32 = (items.map itemWordsR).flatten := by
+  induction items with
+  | nil => rfl
+  | cons it items ih =>
+    have h1 : itemByteSize it ≤ 2147483647 := by
+      have := itemByteSize_le_sum (items := it :: items) (List.mem_cons_self ..); omega
+    simp only [List.map_cons, sumNat] at hs
+    simp only [List.flatMap_cons, List.map_append, List.map_cons, List.flatten_cons]
+    rw [itemWords_wrap (hw it (List.mem_cons_self ..)) (by unfold itemByteSize at h1; omega),
+      ih (fun it' h' => hw it' (List.mem_cons_of_mem _ h')) (by omega)]
+
+/-- what the writer accepts: the preconditions of the round trip -/
+structure Writable (ver : Nat) (deflate : List UInt8 → List UInt8) (items : List Item)
+    (datas : List (List UInt8)) : Prop where
+  version : ver = 3 ∨ ver = 4
+  ids : ∀ it ∈ items, it.typeId < 65536 ∧ it.id < 65536
+  words : ∀ it ∈ items, ∀ w ∈ it.data, InI32 w
+  sorted : items.Pairwise (fun a b => a.typeId ≤ b.typeId)
+  total : (sizesOf ver deflate items datas).total ver ≤ 2147483647
+  dataLen : ∀ d ∈ datas, d.length ≤ 2147483647
+
+theorem storedOf_length (ver : Nat) (deflate : List UInt8 → List UInt8) (datas : List (List UInt8)) :
+    (storedOf ver deflate datas).length = datas.length := by
+  unfold storedOf; split <;> simp
+
+
+/-- **`Reader::new` on a written file yields exactly the writer's tables.** -/
+theorem new_writeDf (ver : Nat) (deflate : List UInt8 → List UInt8) (items : List Item)
+    (datas : List (List UInt8)) (wr : Writable ver deflate items datas) :
+    Reader.new (writeDf ver deflate items datas) = .ok (writtenReader ver deflate items datas) := by
+  obtain ⟨hread, hcheck⟩ := writer_header_explicit ver wr.version deflate items datas wr.total
+  have hz : (sizesOf ver deflate items datas).total ver
+      = 36 + 12 * (groupTypes items 0).length + 4 * items.length + 4 * datas.length
+        + (if ver = 3 then 0 else 4 * datas.length) + sumNat (items.map itemByteSize)
+        + sumNat ((storedOf ver deflate datas).map List.length) := rfl
+  have htot := wr.total
+  rw [hz] at htot
+  have hN : items.length ≤ 2147483647 := by omega
+  have hsi : sumNat (items.map itemByteSize) ≤ 2147483647 := by omega
+  have hsd : sumNat ((storedOf ver deflate datas).map List.length) ≤ 2147483647 := by omega
+  have hslen := storedOf_length ver deflate datas
+  -- every table word fits an i32
+  have hck := checkTypes_groupTypes items.length hN items 0 none [] wr.sorted (fun it h => (wr.ids it h).1)
+    (by simp) (fun p hp => by cases hp) (fun s hs => by cases hs)
+  have htok := checkTypes_ok (items.length : Int) _ _ _ _ (by simp) hck
+  have hTin : ∀ w ∈ typeWords (groupTypes items 0), InI32 w := by
+    intro w hw
+    simp only [typeWords, List.mem_flatMap] at hw
+    obtain ⟨t, ht, hw⟩ := hw
+    obtain ⟨a1, a2, a3, a4, a5⟩ := htok t ht
+    simp only [List.mem_cons, List.mem_nil_iff, or_false] at hw
+    unfold InI32
+    rcases hw with rfl | rfl | rfl <;> omega
+  have hIOin : ∀ w ∈ (offsetsFrom 0 (items.map itemByteSize)).map (fun (n : Nat) => (n : Int)), InI32 w := by
+    intro w hw
+    simp only [List.mem_map] at hw
+    obtain ⟨x, hx, rfl⟩ := hw
+    have := offsetsFrom_le _ _ _ hx
+    unfold InI32; omega
+  have hDOin : ∀ w ∈ (offsetsFrom 0 ((storedOf ver deflate datas).map List.length)).map
+      (fun (n : Nat) => (n : Int)), InI32 w := by
+    intro w hw
+    simp only [List.mem_map] at hw
+    obtain ⟨x, hx, rfl⟩ := hw
+    have := offsetsFrom_le _ _ _ hx
+    unfold InI32; omega
+  have hSZin : ∀ w ∈ datas.map (fun d => ((d.length : Nat) : Int)), InI32 w := by
+    intro w hw
+    simp only [List.mem_map] at hw
+    obtain ⟨d, hd, rfl⟩ := hw
+    have := wr.dataLen d hd
+    unfold InI32; omega
+  -- lengths of the parts
+  have lT : (bytesOfWords (typeWords (groupTypes items 0))).length
+      = 12 * asUsize (((groupTypes items 0).length : Nat) : Int) := by
+    rw [bytesOfWords_length, typeWords_length, asUsize_nonneg (by omega)]; omega
+  have lIO : (bytesOfWords ((offsetsFrom 0 (items.map itemByteSize)).map (fun (n : Nat) => (n : Int)))).length
+      = 4 * asUsize ((items.length : Nat) : Int) := by
+    rw [bytesOfWords_length, List.length_map, offsetsFrom_length, List.length_map,
+      asUsize_nonneg (by omega)]; omega
+  have lDO : (bytesOfWords ((offsetsFrom 0 ((storedOf ver deflate datas).map List.length)).map
+      (fun (n : Nat) => (n : Int)))).length = 4 * asUsize ((datas.length : Nat) : Int) := by
+    rw [bytesOfWords_length, List.length_map, offsetsFrom_length, List.length_map, hslen,
+      asUsize_nonneg (by omega)]; omega
+  have lSZ : (bytesOfWords (datas.map (fun d => ((d.length : Nat) : Int)))).length
+      = 4 * asUsize ((datas.length : Nat) : Int) := by
+    rw [bytesOfWords_length, List.length_map, asUsize_nonneg (by omega)]; omega
+  have lIT : (bytesOfWords (items.flatMap itemWords)).length
+      = 4 * (asUsize ((sumNat (items.map itemByteSize) : Nat) : Int) / 4) := by
+    rw [bytesOfWords_length, asUsize_nonneg (by omega)]
+    have := flatMap_itemWords_length items
+    omega
+  have lST : ((storedOf ver deflate datas).flatten).length
+      = sumNat ((storedOf ver deflate datas).map List.length) := sumNat_map_length_flatten _
+  have lH : (magicData ++ bytesOfWords ((sizesOf ver deflate items datas).headerWords ver)).length
+      = headerSize := by
+    simp [magicData, bytesOfWords_length, Sizes.headerWords, headerSize]
+  have hmod4 := sumNat_items_mod4 items
+  have key : ∀ R : Reader, R = writtenReader ver deflate items datas →
+      (match R.check with
+        | .ok () => Outcome.ok R
+        | .err e => Outcome.err e
+        | .panic s => Outcome.panic s) = .ok (writtenReader ver deflate items datas) := by
+    intro R hR
+    subst hR
+    rw [writtenReader_check ver deflate items datas wr.ids wr.sorted hN]
+  have hfilelen : ¬ ((magicData ++ bytesOfWords ((sizesOf ver deflate items datas).headerWords ver) ++
+      (bytesOfWords (typeWords (groupTypes items 0)) ++
+        (bytesOfWords ((offsetsFrom 0 (items.map itemByteSize)).map (fun (n : Nat) => (n : Int))) ++
+          (bytesOfWords ((offsetsFrom 0 ((storedOf ver deflate datas).map List.length)).map
+              (fun (n : Nat) => (n : Int))) ++
+            ((if ver = 3 then [] else bytesOfWords (datas.map (fun d => ((d.length : Nat) : Int)))) ++
+              (bytesOfWords (items.flatMap itemWords) ++ (storedOf ver deflate datas).flatten)))))).length
+      < (((sizesOf ver deflate items datas).total ver : Nat) : Int).toNat) := by
+    simp only [List.length_append, lH, lT, lIO, lDO, lIT, lST]
+    rw [hz]
+    have e1 : asUsize (((groupTypes items 0).length : Nat) : Int) = (groupTypes items 0).length := by
+      rw [asUsize_nonneg (by omega)]; omega
+    have e2 : asUsize ((items.length : Nat) : Int) = items.length := by
+      rw [asUsize_nonneg (by omega)]; omega
+    have e3 : asUsize ((datas.length : Nat) : Int) = datas.length := by
+      rw [asUsize_nonneg (by omega)]; omega
+    have e4 : asUsize ((sumNat (items.map itemByteSize) : Nat) : Int) = sumNat (items.map itemByteSize) := by
+      rw [asUsize_nonneg (by omega)]; omega
+    rw [e1, e2, e3, e4]
+    have hmod4' : sumNat (items.map itemByteSize) % 4 = 0 := hmod4
+    split
+    · simp only [List.length_nil, headerSize]; omega
+    · rw [lSZ, e3]; simp only [headerSize]; omega
+  have hal : ¬ asUsize ((sumNat (items.map itemByteSize) : Nat) : Int) % 4 ≠ 0 := by
+    have hm : sumNat (items.map itemByteSize) % 4 = 0 := hmod4
+    rw [asUsize_nonneg (by omega)]; omega
+  -- run `Reader::new`
+  unfold Reader.new
+  rw [hread]
+  simp only
+  rw [hcheck]
+  simp only
+  rw [writeDf_layout]
+  rw [List.drop_left' lH]
+  have pv : (writtenHeader (sizesOf ver deflate items datas) ver).version = (ver : Int) := rfl
+  have pnt : (writtenHeader (sizesOf ver deflate items datas) ver).numItemTypes
+      = (((groupTypes items 0).length : Nat) : Int) := rfl
+  have pni : (writtenHeader (sizesOf ver deflate items datas) ver).numItems = ((items.length : Nat) : Int) := rfl
+  have pnd : (writtenHeader (sizesOf ver deflate items datas) ver).numData = ((datas.length : Nat) : Int) := rfl
+  have psi : (writtenHeader (sizesOf ver deflate items datas) ver).sizeItems
+      = ((sumNat (items.map itemByteSize) : Nat) : Int) := rfl
+  have psd : (writtenHeader (sizesOf ver deflate items datas) ver).sizeData
+      = ((sumNat ((storedOf ver deflate datas).map List.length) : Nat) : Int) := rfl
+  rw [pv, pnt, pni, pnd, psi, psd]
+  rw [if_neg (by rcases wr.version with h | h <;> subst h <;> simp)]
+  rw [readExact_of_length lT]
+  simp only
+  rw [readExact_of_length lIO]
+  simp only
+  rw [readExact_of_length lDO]
+  simp only
+  rcases wr.version with h | h
+  · subst h
+    have hu : readUds (if ((3 : Nat) : Int) = 3 then Version.v3 else if false = true then Version.v4crude
+        else Version.v4).hasCompressedData (4 * asUsize ((datas.length : Nat) : Int))
+        ((if 3 = 3 then [] else bytesOfWords (datas.map (fun d => ((d.length : Nat) : Int)))) ++
+          (bytesOfWords (items.flatMap itemWords) ++ (storedOf 3 deflate datas).flatten))
+        = some (none, bytesOfWords (items.flatMap itemWords) ++ (storedOf 3 deflate datas).flatten) := by
+      simp [readUds, Version.hasCompressedData]
+    rw [hu]
+    simp only
+    rw [if_neg hal]
+    rw [readExact_of_length lIT]
+    simp only
+    rw [if_neg (by first | exact hfilelen | simpa using hfilelen)]
+    refine key _ ?_
+    unfold writtenReader
+    simp only [Reader.mk.injEq]
+    refine ⟨by simp, trivial, trivial, trivial, trivial, trivial, ?_, ?_, ?_, by simp, ?_, trivial⟩
+    · rw [wordsOfBytes_bytesOfWords _ hTin, typesOfWords_typeWords]
+    · rw [wordsOfBytes_bytesOfWords _ hIOin]
+    · rw [wordsOfBytes_bytesOfWords _ hDOin]
+    · rw [wordsOfBytes_bytesOfWords_wrap, flatMap_itemWords_wrap items wr.words hsi]
+  · subst h
+    have hu : readUds (if ((4 : Nat) : Int) = 3 then Version.v3 else if false = true then Version.v4crude
+        else Version.v4).hasCompressedData (4 * asUsize ((datas.length : Nat) : Int))
+        ((if 4 = 3 then [] else bytesOfWords (datas.map (fun d => ((d.length : Nat) : Int)))) ++
+          (bytesOfWords (items.flatMap itemWords) ++ (storedOf 4 deflate datas).flatten))
+        = some (some (bytesOfWords (datas.map (fun d => ((d.length : Nat) : Int)))),
+            bytesOfWords (items.flatMap itemWords) ++ (storedOf 4 deflate datas).flatten) := by
+      have : (if ((4 : Nat) : Int) = 3 then Version.v3 else if false = true then Version.v4crude
+        else Version.v4).hasCompressedData = true := by simp [Version.hasCompressedData]
+      rw [this]
+      simp only [readUds, if_true]
+      rw [if_neg (by decide), readExact_of_length lSZ]
+    rw [hu]
+    simp only
+    rw [if_neg hal]
+    rw [readExact_of_length lIT]
+    simp only
+    rw [if_neg (by first | exact hfilelen | simpa using hfilelen)]
+    refine key _ ?_
+    unfold writtenReader
+    simp only [Reader.mk.injEq]
+    refine ⟨by simp, trivial, trivial, trivial, trivial, trivial, ?_, ?_, ?_, ?_, ?_, trivial⟩
+    · rw [wordsOfBytes_bytesOfWords _ hTin, typesOfWords_typeWords]
+    · rw [wordsOfBytes_bytesOfWords _ hIOin]
+    · rw [wordsOfBytes_bytesOfWords _ hDOin]
+    · simp only [Option.map_some]
+      rw [wordsOfBytes_bytesOfWords _ hSZin]; simp
+    · rw [wordsOfBytes_bytesOfWords_wrap, flatMap_itemWords_wrap items wr.words hsi]
+
+
+/-- **Round trip.**  A file written from a well-formed item list and arbitrary data blocks is
+accepted and returns exactly the items and the data that were stored. -/
+theorem roundtrip_writtenReader (ver : Nat) (deflate : List UInt8 → List UInt8)
+    (inflate : Nat → List UInt8 → Option (List UInt8)) (items : List Item) (datas : List (List UInt8))
+    (wr : Writable ver deflate items datas)
+    (hzl : ∀ x ∈ datas, inflate x.length (deflate x) = some x) :
+    ∃ r, Reader.new (writeDf ver deflate items datas) = .ok r
+      ∧ r.numItems = items.length ∧ r.numData = datas.length
+      ∧ (∀ k (hk : k < items.length), ∃ v, r.item k = .ok v ∧ v.typeId = items[k].typeId
+            ∧ v.id = items[k].id ∧ v.data = items[k].data)
+      ∧ (∀ i (hi : i < datas.length), r.readData inflate i = .ok datas[i]) := by
+  refine ⟨writtenReader ver deflate items datas, new_writeDf ver deflate items datas wr, rfl, rfl, ?_, ?_⟩
+  · intro k hk
+    obtain ⟨_, _, hitem⟩ := writtenReader_item ver deflate items datas hk
+    have hb := wr.ids items[k] (List.getElem_mem hk)
+    have ht := itemHdrR_toNat hb.1 hb.2
+    refine ⟨_, hitem, ?_, ?_, rfl⟩
+    · simp only [ht]; omega
+    · simp only [ht]; omega
+  · intro i hi
+    have hslen := storedOf_length ver deflate datas
+    have htot := wr.total
+    have hzt : (sizesOf ver deflate items datas).total ver
+        = 36 + 12 * (groupTypes items 0).length + 4 * items.length + 4 * datas.length
+          + (if ver = 3 then 0 else 4 * datas.length) + sumNat (items.map itemByteSize)
+          + sumNat ((storedOf ver deflate datas).map List.length) := rfl
+    rw [hzt] at htot
+    have hrd := readData_of_layout (r := writtenReader ver deflate items datas)
+      (storedOf ver deflate datas) inflate rfl rfl rfl
+      (by show ((sumNat ((storedOf ver deflate datas).map List.length) : Nat) : Int) ≤ 2147483647; omega)
+      (i := i) (by omega)
+    rw [hrd]
+    rcases wr.version with h | h
+    · subst h
+      have hu : (writtenReader 3 deflate items datas).uncompSizes = none := rfl
+      rw [hu]
+      simp [storedOf]
+    · subst h
+      have hu : (writtenReader 4 deflate items datas).uncompSizes
+          = some (datas.map (fun d => ((d.length : Nat) : Int))) := rfl
+      rw [hu]
+      simp only
+      rw [List.getElem?_map, List.getElem?_eq_getElem hi]
+      simp only [Option.map_some]
+      have hst : (storedOf 4 deflate datas)[i]'(by omega) = deflate datas[i] := by
+        simp [storedOf]
+      rw [hst, asUsize_nonneg (by omega)]
+      have : ((datas[i].length : Nat) : Int).toNat = datas[i].length := by omega
+      rw [this, hzl datas[i] (List.getElem_mem hi)]
+      simp
+
+
+
+/-- well-formed item list for the writer: 16-bit type ids and ids, 32-bit data words, equal type
+ids adjacent and ascending (the order `Reader::check` demands of the type table) -/
+def ItemsWellFormed (items : List Item) : Prop :=
+  (∀ it ∈ items, it.typeId < 65536 ∧ it.id < 65536 ∧ ∀ w ∈ it.data, InI32 w)
+    ∧ items.Pairwise (fun a b => a.typeId ≤ b.typeId)
+
 
 end Tw.Datafile
